@@ -204,6 +204,15 @@ fn native_replace(vm: &mut VM, args: &[Value]) -> Result<Value, RuntimeError> {
     let s = get_string(vm, args[0], "string.replace")?;
     let old = get_string(vm, args[1], "string.replace")?;
     let new = get_string(vm, args[2], "string.replace")?;
+    // the length of the result is known (it can be the product of two strings the program holds):
+    // refuse it before the host builds it
+    let count = s.matches(old).count();
+    let total = count
+        .checked_mul(new.len())
+        .and_then(|grown| grown.checked_add(s.len() - count * old.len()))
+        .filter(|t| *t <= isize::MAX as usize)
+        .ok_or_else(|| too_long(vm))?;
+    vm.check_string_capacity(total)?;
     make_string(vm, &s.replace(old, new))
 }
 
@@ -236,6 +245,18 @@ fn native_split(vm: &mut VM, args: &[Value]) -> Result<Value, RuntimeError> {
 fn native_join(vm: &mut VM, args: &[Value]) -> Result<Value, RuntimeError> {
     let parts = get_string(vm, args[0], "string.join")?;
     let sep = get_string(vm, args[1], "string.join")?;
+    // the length of the result is known (number of lines times the separator): refuse it before
+    // the host builds it
+    let (lines, bytes) = parts
+        .lines()
+        .fold((0usize, 0usize), |(n, b), line| (n + 1, b + line.len()));
+    let total = lines
+        .saturating_sub(1)
+        .checked_mul(sep.len())
+        .and_then(|seps| seps.checked_add(bytes))
+        .filter(|t| *t <= isize::MAX as usize)
+        .ok_or_else(|| too_long(vm))?;
+    vm.check_string_capacity(total)?;
     let result = parts.lines().collect::<Vec<&str>>().join(sep);
     make_string(vm, &result)
 }
